@@ -85,6 +85,14 @@ async fn run_batch(beh: &[Value], batch_size: usize, max_delay: u64, store_path:
             }
             other => panic!("unknown move {}", other),
         }
+        // a transaction marked `hold` is handed over without letting the batch maker run before the next move: transactions queue up in
+        // its channel, as they do under load
+        if act.get("hold").and_then(|x| x.as_bool()).unwrap_or(false) {
+            let mut r = json!({"t":"bm","ev":a,"sealed_so_far":[],"panicked":false,"unsettled":true});
+            r["size"] = act["size"].clone();
+            recs.push(r);
+            continue;
+        }
         settle().await;
         for ic in simnet::take_intercepted() {
             conns.push(Framed::new(ic.stream, LengthDelimitedCodec::new()));
